@@ -291,9 +291,11 @@ def shard_attr_expiry(arg) -> E.Tally:
     for j, (name, (ent, attr)) in enumerate(ATTR_EXPIRY):
         if j % n != i:
             continue
-        for other, dhw in ((None, True), ("T_rp(00,2)", True), ("SP_arr(00+01,1)", True), (None, False), ("T_rp(00,2)", False)):
+        for other, dhw in ((None, True), ("WIN(0B,2)", True), ("SYS(1)", True), (None, False), ("WIN(0B,2)", False)):
             if not dhw and ent == "HW":
                 continue
+            if other and (ent, attr) in L[other][1]:
+                other = "T_rp(0B,1)"  # unrelated traffic must really be unrelated to the attribute under test
             w, gwy = new_world(dhw)
             try:
                 frame, eff = L[name]
